@@ -11,6 +11,8 @@ import HawkModel.Drv.Gc
 import HawkModel.Drv.Depth
 import HawkModel.Drv.Oom
 import HawkModel.Drv.Sed
+import HawkModel.Drv.SedC
+import HawkModel.Drv.CtxApi
 import HawkModel.Drv.Ctx
 import HawkModel.Drv.ReadIo
 import HawkModel.Drv.Crash
@@ -35,6 +37,9 @@ def main (args : List String) : IO UInt32 := do
   | "depth" :: _ => Hawk.Drv.Depth.main; return 0
   | "oom" :: _ => Hawk.Drv.Oom.main; return 0
   | "sed" :: _ => Hawk.Drv.Sed.main; return 0
+  | "sedc" :: _ => Hawk.Drv.SedC.mainC; return 0
+  | "sedt" :: _ => Hawk.Drv.SedC.mainT; return 0
+  | "ctxapi" :: _ => Hawk.Drv.CtxApi.main; return 0
   | "ctx" :: _ => Hawk.Drv.Ctx.main; return 0
   | "readio" :: _ => Hawk.Drv.ReadIo.main; return 0
   | "crash" :: _ => Hawk.Drv.Crash.main; return 0
